@@ -31,7 +31,8 @@
 (* amoco, or the case is unexplained (quirks = {}):                         *)
 (*   SkipWiderSecond  iff both maps have an item for one memory key, m1's   *)
 (*     narrower than m2's, and every failing byte lies in the part m2's     *)
-(*     item exceeds m1's;                                                   *)
+(*     item exceeds m1's (SkipWiderSecondVec when the key is a vector-      *)
+(*     valued pointer: merge()'s vector branch, not covered by the repair); *)
 (*   TopReadAsBottom  iff every failing cell is a memory byte that mm reads *)
 (*     back as the untouched location itself although an item of mm covers  *)
 (*     it with an unknown (top / vecw) value (_Mem_read takes an unknown    *)
@@ -119,8 +120,11 @@ FailKeys == {x \in {"k"} \X (1..Len(T.items)) \X {0} \X {0} :
 (* the listed quirk: one memory key in both maps, m1's item narrower; the bytes m2's item exceeds m1's *)
 WiderSecond == {j \in 1..Len(T.items) : T.items[j].loc.k = "ptr" /\ T.items[j].m1_has = 1
                                         /\ T.items[j].m2_has = 1 /\ T.items[j].m1_w < T.items[j].m2_w}
-LostBytes == UNION {LET it == T.items[j] IN
-                    UNION {(d + it.m1_w \div 8)..(d + it.m2_w \div 8 - 1) : d \in KeyOffs(it.loc)} : j \in WiderSecond}
+LostOf(J) == UNION {LET it == T.items[j] IN
+                    UNION {(d + it.m1_w \div 8)..(d + it.m2_w \div 8 - 1) : d \in KeyOffs(it.loc)} : j \in J}
+WiderVec   == {j \in WiderSecond : T.items[j].loc.base.k = "vec"}       \* the key is a vector-valued pointer
+LostPlain  == LostOf(WiderSecond \ WiderVec)
+LostVec    == LostOf(WiderVec)
 (* byte b (0-based) of the value tree t is unknown: top / vecw, or the comp part covering it is *)
 RECURSIVE TopAt(_, _)
 TopAt(t, b) ==
@@ -158,10 +162,11 @@ Itemless(i, o) ==
 CellClass(x) ==
   IF x[1] = "m" /\ IsSelfMem(T.cells[x[2]].mm, T.cells[x[2]].o) /\ UnderTopItem(T.cells[x[2]].o) THEN "TopReadAsBottom"
   ELSE IF x[1] = "m" /\ IsSelfMem(T.cells[x[2]].mm, T.cells[x[2]].o) /\ TopKey /\ T.thr > 0 THEN "TopPointerKey"
-  ELSE IF x[1] = "m" /\ x[3] = 2 /\ T.cells[x[2]].o \in LostBytes THEN "SkipWiderSecond"
+  ELSE IF x[1] = "m" /\ x[3] = 2 /\ T.cells[x[2]].o \in LostPlain THEN "SkipWiderSecond"
+  ELSE IF x[1] = "m" /\ x[3] = 2 /\ T.cells[x[2]].o \in LostVec THEN "SkipWiderSecondVec"
   ELSE IF x[1] = "m" /\ x[3] \in {1, 2} /\ (CoveredTwice(x[3], T.cells[x[2]].o) \/ StaleAt(x[3], T.cells[x[2]].o)) THEN "StaleItems"
   ELSE IF x[1] = "m" /\ x[3] \in {1, 2} /\ Itemless(x[3], T.cells[x[2]].o) THEN "VecStoreDropsItem"
-  ELSE IF x[1] = "i" /\ x[2] \in WiderSecond /\ x[3] = 2 THEN "SkipWiderSecond"
+  ELSE IF x[1] = "i" /\ x[2] \in WiderSecond /\ x[3] = 2 THEN (IF x[2] \in WiderVec THEN "SkipWiderSecondVec" ELSE "SkipWiderSecond")
   ELSE IF x[1] = "k" /\ T.items[x[2]].loc.k = "ptr" /\ T.items[x[2]].loc.base.k = "top" /\ T.thr > 0 THEN "TopPointerKey"
   ELSE ""
 Attribute(fc, fu, fl, fk) ==
